@@ -16,6 +16,18 @@ CMD_SINKS = "command substitution ($( ) / backquotes)"
 CLASSES = [("ENV", taint.is_env_read), ("CMD", taint.is_cmd_output), ("FILE", taint.is_glob_result)]
 
 
+def _bool_sources(b, l, depth=4):
+    """definitions of a bool local, through plain copies of other locals"""
+    out = []
+    for bi, si in b.defs.get(l, []):
+        e = strip_sites(b.def_expr(bi, si))
+        if e[0] == "var" and depth > 0 and e[1] != l:
+            out += _bool_sources(b, e[1], depth - 1)
+        else:
+            out.append(e)
+    return out
+
+
 def run(ctx):
     ctx.rule("R13-1", "every operator recogniser (| & < <<< > >>) acts only on tokens with an empty quote tag (E-TAG, class OP)")
     ctx.rule("R13-2", "no expansion pass leaves text derived from the environment, a command's output or a file name in "
@@ -41,7 +53,13 @@ def run(ctx):
         n_ = editlist.rule(ctx, crate, "R13-4", ps_)
         ctx.floor("R13-4", crate, "passes with a token vector", n_, 7)
         res = etag.run_sites(ctx, "R13-1", crate, cls_filter=lambda i: i.cls == "OP")
-        ctx.floor("R13-1", crate, "operator recognisers", len(res), 9)
+        # not a count of comparisons (hoisting a repeated test into one closure lowers it): every function that
+        # recognises operators today must still be seen recognising at least one
+        seen_fns = {(i.body.parent if i.body.kind == "closure" else i.body.path) for i, ok_ in res}
+        need = {"types::CommandLine::from_line", "types::Command::from_tokens", "types::split_tokens_by_pipes"}
+        ctx.require(need <= seen_fns, "R13-1", "R13-1|floor|operator recognisers",
+                    "operator recognisers not found in %s" % ", ".join(sorted(need - seen_fns)))
+        ctx.floor("R13-1", crate, "operator recognisers", len(res), 5)
         retag_rule(ctx, crate)
         split_rule(ctx, crate)
         whole_subst_guard_rule(ctx, crate)
@@ -296,8 +314,15 @@ def whole_subst_guard_rule(ctx, crate):
     for bb in sorted(b.reachable):
         for tgt, atom, val in b.switch_edges(bb):
             a = strip_sites(atom)
-            if val is True and a[0] == "call" and last_seg(a[1]) in ("re_contains", "is_match") and len(a[2]) >= 2:
-                lit = const_str(a[2][1]) if last_seg(a[1]) == "re_contains" else None
+            if val is not True:
+                continue
+            # `if helper(token)` with the helper spliced in, or `let sub = a || b || re_contains(..); if sub`: the tested
+            # bool is true whenever one of its definitions - the scanner call - returned true
+            cands = [a] if a[0] != "var" else _bool_sources(b, a[1])
+            for a in cands:
+                if not (a[0] == "call" and last_seg(a[1]) == "re_contains" and len(a[2]) >= 2):
+                    continue
+                lit = const_str(a[2][1])
                 if lit is None:
                     continue
                 # every path from the True target assigns the answer `false` first
